@@ -1,4 +1,4 @@
-(** Forged handles join the core language: world-level destroys and world-level and archetype-level probes with ANY raw (key, generation) pair of 32-bit
+(** Forged handles join the core language: destroys and probes, at world and archetype level, with ANY raw (key, generation) pair of 32-bit
     words - never issued, stale, naming another or no archetype, generation zero, slot beyond the capacity -
     (C03 as the specification oracle reads it). *)
 From Coq Require Import NArith Lia Bool.
@@ -13,6 +13,7 @@ Definition l1_op (d : wdecl) (o : op) : bool :=
                 | OProbe LWorld KEnt TAny (RRaw key ver) => (key <? 2^32)%N && (ver <? 2^32)%N
                 | OProbe (LArch b) KEnt TAny (RRaw key ver) => (b <? length (wd_archs d)) && (key <? 2^32)%N && (ver <? 2^32)%N
                 | ODestroy LWorld KEnt TAny (RRaw key ver) => (key <? 2^32)%N && (ver <? 2^32)%N
+                | ODestroy (LArch b) KEnt TAny (RRaw key ver) => (b <? length (wd_archs d)) && (key <? 2^32)%N && (ver <? 2^32)%N
                 | _ => false
                 end.
 
@@ -252,6 +253,141 @@ Qed.
 
 
 
+Lemma rel_step_destroy_raw_arch cfg d qs st sst a key ver : wrapping cfg = false -> wf_decl d -> NoDup (da_id <$> wd_archs d) -> Rel d st sst ->
+  a < length (wd_archs d) -> (key < 2^32)%N -> (ver < 2^32)%N ->
+  exists st' obs sst', step cfg d qs st (ODestroy (LArch a) KEnt TAny (RRaw key ver)) = Some (st', obs) /\ obs <> [254%N] /\
+    spec_step cfg d qs sst (ODestroy (LArch a) KEnt TAny (RRaw key ver)) obs = inr sst' /\ Rel d st' sst'.
+Proof.
+  intros Hwr Hwf Hnd HR Hlt Hkey Hver. destruct (rel_cur d st sst HR) as (w & sw & Hw & Hsw & Hcw & Hcsw & HWI & Harch).
+  destruct (r_cur _ _ _ HR) as [Hc0 Hsc0]. destruct (r_iss _ _ _ HR) as [Hfi Hwi].
+  pose proof (step_inv cfg d qs st (ODestroy (LArch a) KEnt TAny (RRaw key ver)) Hwf ltac:(done) (r_inv _ _ _ HR)) as Hinv.
+  set (e := (key, ver)). assert (Hk : key32 e) by done.
+  destruct (N.eq_dec ver 0) as [->|Hv].
+  { exists st, [5%N], sst. split_and!; [|done| |done].
+    - cbn [step]. rewrite Hcw. cbn [get_href]. unfold make_key. cbn [snd]. by unfold raw_ok, nonzero_new.
+    - cbn [spec_step]. rewrite Hcsw. cbn [fmap option_fmap option_map]. unfold expect_key. cbn [fst snd N.eqb]. unfold lNeqb. by rewrite bool_decide_eq_true_2. }
+  assert (Hraw : raw_ok ver = true) by (unfold raw_ok, nonzero_new; destruct (N.eqb_spec ver 0); done).
+  destruct (lookup_lt_is_Some_2 _ _ Hlt) as [ad Had].
+  destruct (Harch a ad Had) as (s & x & Hs & Hx & HA & HS).
+  destruct (decide (da_id ad = key_arch_id key)) as [Hide0|Hide0].
+  2: { (* the pair carries another archetype's id: absent *)
+       exists st, [0%N], sst. split_and!; [|done| |done].
+       - cbn [step]. rewrite Hcw. cbn [get_href]. unfold make_key. cbn [snd]. rewrite Hraw. cbn [negb dispatch_arch fst]. rewrite Had.
+         change arch_dispatch_checks_id with true. cbn [id_ok]. unfold conv_ok. cbn [fst].
+         destruct (N.eqb_spec (key_arch_id key) (da_id ad)) as [E|_]; [by rewrite E in Hide0|]. done.
+       - cbn [spec_step]. rewrite Hcsw. cbn [fmap option_fmap option_map]. unfold expect_key. cbn [fst snd].
+         destruct (N.eqb_spec ver 0) as [|_]; [done|]. rewrite Had.
+         destruct (N.eqb_spec (da_id ad) (key_arch_id key)) as [|_]; [done|]. done. }
+  assert (Hunf : step cfg d qs st (ODestroy (LArch a) KEnt TAny (RRaw key ver)) =
+      match destroy cfg KEnt s e with
+      | Ok s1 (Some row) => let '(st2, obs) := after_drop d ad (set_world st (upd w a s1)) (1%N :: row) in ret st2 obs
+      | Ok s1 None => ret st [0%N]
+      | Panic p s1 => ret (set_world st (upd w a s1)) [2%N; pcode p]
+      | UB => None
+      end).
+  { cbn [step]. rewrite Hcw. cbn [get_href]. unfold make_key. cbn [snd]. rewrite Hraw. cbn [negb dispatch_arch fst]. rewrite Had.
+    change arch_dispatch_checks_id with true. cbn [id_ok]. unfold conv_ok. cbn [fst].
+    assert ((key_arch_id key =? da_id ad)%N = true) as -> by (apply N.eqb_eq; congruence).
+    cbn [fmap option_fmap option_map]. rewrite Had, Hs. done. }
+  rewrite Hunf in Hinv |- *.
+  assert (Hora : (da_id ad =? key_arch_id key)%N = true) by (by apply N.eqb_eq).
+  destruct HS as (HI & Haid & Hcols).
+  destruct (decide (e ∈ ents s)) as [Hstored|Hnot].
+  2: { pose proof (resolve_entity_cases cfg s HI e Hk) as Hcase.
+       assert (Hd2 : destroy cfg KEnt s e = Ok s None \/ destroy cfg KEnt s e = Panic PDebug s).
+       { unfold destroy. cbn [resolve_key]. destruct (resolve_entity cfg s e) as [[[si dd]|]|p|] eqn:Hr; [| | |done].
+         - exfalso. apply Hnot. apply elem_of_list_lookup. exists dd. eapply resolve_entity_exact; [done|done|cbn; congruence|done].
+         - by left.
+         - right. by destruct Hcase as (-> & _). }
+       pose proof (a_b2 _ _ _ HA e Hnot) as Hfind.
+       destruct Hd2 as [Hd2|Hd2]; rewrite Hd2 in Hinv |- *; cbn [ret] in Hinv |- *.
+       - exists st, [0%N], sst. split_and!; [done|done| |done].
+         cbn [spec_step]. rewrite Hcsw. cbn [fmap option_fmap option_map]. unfold expect_key. cbn [fst snd].
+         destruct (N.eqb_spec ver 0) as [|_]; [done|]. rewrite Had, Hora, Hx. rewrite (a_sync _ _ _ HA). fold e. rewrite Hfind. done.
+       - assert (Hupd : upd w a s = w) by (unfold upd; by apply list_insert_id).
+         exists (set_world st (upd w a s)), [2%N; pcode PDebug], sst. split_and!; [done|done| |].
+         + cbn [spec_step]. rewrite Hcsw. cbn [fmap option_fmap option_map]. unfold expect_key. cbn [fst snd].
+           destruct (N.eqb_spec ver 0) as [|_]; [done|]. rewrite Had, Hora, Hx. rewrite (a_sync _ _ _ HA). fold e. rewrite Hfind. done.
+         + destruct HR as [R1 R2 R3 R4 R5 R6 R7]. constructor; try done.
+           exists w, sw. split_and!; [cbn; by rewrite Hw, Hc0, Hupd|done|].
+           intros a2 ad2 Had2. destruct (Harch a2 ad2 Had2) as (s2 & x2 & ? & ? & ? & _). by exists s2, x2. }
+  assert (Hc : eslot e < cap s).
+  { apply elem_of_list_lookup in Hstored as [dd Hdd]. by destruct (fwd' s dd e HI Hdd) as (_ & _ & Hc & _). }
+  pose proof (destroy_summary cfg s (iss_of (aid s) (issued st)) e Hwr HI (a_hist _ _ _ HA) Hk ltac:(cbn; congruence) Hc) as Hds.
+  (* the oracle's prefix *)
+  assert (Hpre : forall obs, spec_step cfg d qs sst (ODestroy (LArch a) KEnt TAny (RRaw key ver)) obs =
+    match obs with
+    | 1%N :: vals => match find_sent e (sa_live x) with
+                     | None => inl ((if 0 <? count_h e (default [] (s_wissued sst !! s_cur sst)) then 1%N else 3%N), 1%N)
+                     | Some e0 => if negb (lNeqb vals (se_vals e0)) then inl (2%N, 30%N) else inr (set_sarch sst sw a (sarch_remove x e))
+                     end
+    | _ => spec_step cfg d qs sst (ODestroy (LArch a) KEnt TAny (RRaw key ver)) obs
+    end).
+  { intros obs. destruct obs as [|o1 vals]; [done|]. destruct (N.eq_dec o1 1) as [->|Hne]; [|by destruct o1 as [|[| |]]].
+    cbn [spec_step]. rewrite Hcsw. cbn [fmap option_fmap option_map]. unfold expect_key. cbn [fst snd].
+    destruct (N.eqb_spec ver 0) as [|_]; [done|]. rewrite Had, Hora, Hx. fold e.
+    destruct (find_sent e (sa_live x)); done. }
+  destruct (destroy cfg KEnt s e) as [s' [row|]|p s'|] eqn:Hdes; [| | |done].
+  - (* removed *)
+    destruct Hds as (Hrow & HH' & Hcap' & Hlen' & Hpos & Hrows).
+    unfold after_drop in Hinv |- *. cbn [drop_in set_world] in Hinv |- *. rewrite (r_drop _ _ _ HR) in Hinv |- *.
+    cbn [drop_row N.eqb ret] in Hinv |- *.
+    set (st' := set_drop_in (set_world st (upd w a s')) 0%N) in *.
+    assert (HS' : SInv ad s').
+    { assert (HWI' : WInv d (upd w a s')) by (eapply (RInv_cur d st'); [done|unfold cur_world; cbn; by rewrite Hw, Hc0]).
+      destruct (Forall2_lookup_l _ _ _ _ _ HWI' Had) as (s2 & Hs2 & HS2).
+      assert (Hup : upd w a s' !! a = Some s') by (unfold upd; apply list_lookup_insert; by eapply lookup_lt_Some).
+      by assert (Some s2 = Some s') as [= ->] by (etrans; [symmetry; exact Hs2|exact Hup]). }
+    destruct HS' as (HI' & Haid' & Hcols').
+    pose proof (a_b1 _ _ _ HA e row Hrow) as Hfind.
+    exists st', (1%N :: row), (set_sarch sst sw a (sarch_remove x e)). split_and!; [done|done| |].
+    + rewrite Hpre, Hfind. cbn [se_vals]. unfold lNeqb. by rewrite bool_decide_eq_true_2.
+    + constructor; try done.
+      * exists (upd w a s'), (<[a := sarch_remove x e]> sw). split_and!; [cbn; by rewrite Hw, Hc0|cbn; by rewrite Hsw, Hsc0|].
+        intros a2 ad2 Had2. destruct (decide (a2 = a)) as [->|Hne].
+        -- rewrite Had in Had2. injection Had2 as <-. exists s', (sarch_remove x e). unfold upd.
+           split_and!; [apply list_lookup_insert; by eapply lookup_lt_Some|apply list_lookup_insert; by eapply lookup_lt_Some|].
+           constructor.
+           ++ apply (a_sync _ _ _ HA).
+           ++ intros e' r Hr. apply Hrows in Hr as [Hr Hne']. cbn [sarch_remove sa_live]. rewrite find_sent_remove, decide_False by done.
+              by apply (a_b1 _ _ _ HA).
+           ++ intros e' He'. cbn [sarch_remove sa_live]. rewrite find_sent_remove. case_decide as Hee; [done|].
+              apply (a_b2 _ _ _ HA). intros Hin. destruct (ents_has_row s e' HI Hin) as [r Hr]. apply He'.
+              eapply has_row_ents, Hrows. done.
+           ++ cbn [sarch_remove sa_live]. rewrite handles_remove. apply NoDup_filter, (a_nodup _ _ _ HA).
+           ++ cbn [sarch_remove sa_live]. rewrite <- (fmap_length se_h). fold (handles_of (remove_sent e (sa_live x))).
+              rewrite handles_remove, length_remove_nodup; [|apply (a_nodup _ _ _ HA)|].
+              ** unfold handles_of. rewrite fmap_length, (a_len _ _ _ HA). lia.
+              ** destruct (decide (e ∈ handles_of (sa_live x))) as [|Hn]; [done|]. apply find_sent_none in Hn. congruence.
+           ++ cbn [st' set_drop_in set_world issued]. assert (aid s' = aid s) as -> by congruence. done.
+           ++ cbn [sarch_remove sa_cap sa_cap_exact]. intros Hex. rewrite (a_cap _ _ _ HA Hex). congruence.
+           ++ cbn [sarch_remove sa_cap]. pose proof (a_cap_le _ _ _ HA). lia.
+        -- destruct (Harch a2 ad2 Had2) as (s2 & x2 & Hs2 & Hx2 & HA2 & _).
+           exists s2, x2. unfold upd.
+           split_and!; [etrans; [apply list_lookup_insert_ne; congruence|exact Hs2]|etrans; [apply list_lookup_insert_ne; congruence|exact Hx2]|done].
+      * apply (r_ids _ _ _ HR).
+      * apply (r_arch _ _ _ HR).
+  - (* absent *)
+    destruct Hds as (-> & Hnin). cbn [ret] in Hinv |- *.
+    exists st, [0%N], sst. split_and!; [done|done| |done].
+    exfalso. done.
+  - (* generation / version overflow *)
+    destruct Hds as (-> & Hp). cbn [ret] in Hinv |- *.
+    set (st' := set_world st (upd w a s)) in *.
+    exists st', [2%N; pcode p], sst. split_and!; [done|by destruct Hp as [-> | ->]| |].
+    + cbn [spec_step]. rewrite Hcsw. cbn [fmap option_fmap option_map]. unfold expect_key. cbn [fst snd].
+      destruct (N.eqb_spec ver 0) as [|_]; [done|]. rewrite Had, Hora, Hx.
+      rewrite (a_sync _ _ _ HA), Hwr. destruct Hp as [-> | ->]; cbn [pcode N.eqb orb]; done.
+    + assert (Hupd : upd w a s = w) by (unfold upd; by apply list_insert_id).
+      constructor; try done.
+      * exists w, sw. split_and!; [cbn; by rewrite Hw, Hc0, Hupd|done|].
+        intros a2 ad2 Had2. destruct (Harch a2 ad2 Had2) as (s2 & x2 & ? & ? & ? & _). by exists s2, x2.
+      * apply (r_ids _ _ _ HR).
+      * apply (r_drop _ _ _ HR).
+      * apply (r_arch _ _ _ HR).
+Qed.
+
+
 Lemma rel_step1 cfg d qs st sst o : wrapping cfg = false -> wf_decl d -> NoDup (da_id <$> wd_archs d) -> Rel d st sst ->
   l1_op d o = true ->
   exists st' obs sst', step cfg d qs st o = Some (st', obs) /\ obs <> [254%N] /\
@@ -260,9 +396,11 @@ Proof.
   intros Hwr Hwf Hnd HR Hl1. destruct (l0_op d o) eqn:Hl0; [by apply rel_step|].
   unfold l1_op in Hl1. rewrite Hl0 in Hl1. cbn [orb] in Hl1.
   destruct o as [| | | | | |l k t r|l k t r| | | | | | | | | | | | | | |]; try done.
-  - destruct l; [|done]. destruct k; [|done]. destruct t; try done. destruct r as [|?|key ver]; try done.
-    apply andb_true_iff in Hl1 as [H1 H2]. apply N.ltb_lt in H1, H2.
-    by apply rel_step_destroy_raw.
+  - destruct k; [|by destruct l]. destruct t; try (by destruct l). destruct r as [|?|key ver]; try (by destruct l).
+    destruct l as [|b].
+    + apply andb_true_iff in Hl1 as [H1 H2]. apply N.ltb_lt in H1, H2. by apply rel_step_destroy_raw.
+    + apply andb_true_iff in Hl1 as [H0 H2]. apply andb_true_iff in H0 as [H0 H1]. apply N.ltb_lt in H1, H2. apply Nat.ltb_lt in H0.
+      by apply rel_step_destroy_raw_arch.
   - destruct k; [|by destruct l]. destruct t; try (by destruct l). destruct r as [|?|key ver]; try (by destruct l).
     destruct l as [|b].
     + apply andb_true_iff in Hl1 as [H1 H2]. apply N.ltb_lt in H1, H2.
